@@ -32,6 +32,9 @@ rule("C01.n", "the list of nodes that get no balance row (skip_nodes) is what th
               "read it (a default list that grows keeps skipping a node in every later set-up - its balance row is missing while its "
               "assets are dispatched)", floor=2)
 rule("C10.f", "a mutable default argument (list / dict / object created in the signature) is never mutated", floor=10)
+rule("C11.j", "a set-up does not write into the constructor-kept attributes of objects it holds (C10.a seen from C11): what to_json writes after a "
+              "set-up must be what the constructor was given - a life time written onto an inner asset by a wrapper is saved with it, and the "
+              "loaded object is built from it", floor=0)
 rule("C03.f", "optimize() does not modify the problem it is called on (mapping, c, l, u, b are only read or copied): the bounds that pin a fixed window reach the solver as set, a relaxed "
               "solve must not clear the boolean flags of the problem itself", floor=1, props=["C03", "C05", "C06", "C20", "C15"])
 rule("C15.c", "the fix_time_window argument is not rewritten by the set-up (same window reused for every interval of a "
@@ -409,7 +412,7 @@ def _mutable_default(d) -> bool:
     return False
 
 
-@analysis("effects", ["C10.a", "C10.e", "C10.f", "C15.c", "C03.f", "C06.g", "C10.h", "C01.k", "C10.i", "C01.n"])
+@analysis("effects", ["C10.a", "C10.e", "C10.f", "C15.c", "C03.f", "C06.g", "C10.h", "C01.k", "C10.i", "C01.n", "C11.j"])
 def run(ctx):
     p = ctx.p
     an = ctx.memo("effects", lambda: EffectAnalysis(ctx))
@@ -542,11 +545,23 @@ def run(ctx):
                             src.add("in-place call" if m.value is None else "via %s" % getattr(m.via, "qualname", m.via))
                             continue
                         atoms(m.value, m.node)
+                    # ... and how: the stores themselves, with local names replaced by placeholders in order of appearance
+                    def alpha(node):
+                        t = ast.parse(au.U(node)).body[0]
+                        names = {}
+                        for x in ast.walk(t):
+                            if isinstance(x, ast.Name) and x.id not in ("self", "max", "min", "np", "pd", "len", "str", "int", "float", "None", "True", "False") \
+                                    and x.id not in pnames:
+                                x.id = names.setdefault(x.id, "_%d" % len(names))
+                        return au.U(t)
+                    how = sorted({alpha(m.node) for m in leaks if m.via is None and isinstance(m.node, (ast.Assign, ast.AugAssign))})
+                    rids = rids + ["C11.j"]
                     for rid in rids:
                         ctx.ob(rid, fn, "self.%s" % attr, False,
                                "an object kept from the constructor (user data, or another asset) is rewritten with call-dependent "
-                               "state: " + "; ".join("%s: %s" % (p.where(m.node), au.short(m.node, 90)) for m in leaks[:4]),
-                               node=leaks[0].node, key="self.%s <- %s" % (attr, ", ".join(sorted(src)) or "?"))
+                               "state: " + "; ".join("%s: %s" % (p.where(m.node), au.short(m.node, 90)) for m in leaks[:4]) + (
+                                   " - what is saved (to_json) after a set-up is no longer what was constructed" if rid == "C11.j" else ""),
+                               node=leaks[0].node, key="self.%s <- %s [%s]" % (attr, ", ".join(sorted(src)) or "?", "; ".join(how)))
                 elif own:
                     ctx.note("C10.a", fn, "self.%s (idempotent)" % attr, "; ".join(au.short(m.node, 70) for m in own[:3]))
     ctx.require(n_public >= 40, "fewer than 40 public functions analysed")
